@@ -48,7 +48,7 @@ PROPS = {
         "rule": "cases = board states observed after every operation of (1) random walks of 50-400 operations mixing legal moves, illegal pseudo-legal make/undo, null moves (search-like: not in check, never two in a row; and unrestricted) and partial undos: "
                 "incremental hash == from-scratch hash (hook) and SquaresToPiece/Pieces/Colors describe one placement, plus FromFEN(b.FEN()).Hash()==b.Hash() on a sample; "
                 "(2) full-width trees of depth 2-4 where a map (placement, side, rights, normalised e.p.) -> hash must stay functional (transpositions by permuted move orders); "
-                "(3) the same consistency check executed in situ by the board hook at every make/undo inside real searches. distinct_nontrivial = distinct walks + distinct tree roots. " + VALID,
+                "(3) the same consistency check executed in situ by the board hook at every make/undo inside real searches; (4) five boards alive at once (StartPos() x3, FromFEN of the same text, a clone) moved in random interleaving: every board is re-checked after every operation on any of them and untouched boards must be bit-identical. Walks and trees also start from FENs that carry a RAW, possibly non-capturable e.p. target. distinct_nontrivial = distinct walks + distinct tree roots + distinct multi-board runs. " + VALID,
         "assumptions": [REF, "the from-scratch hash exposed by the add-only hook is the repo's own calculateHash"],
         "technique": "runtime monitor: invariant at a hook (incremental hash vs recomputed hash, three placement encodings agree) after every operation + transposition map over full-width trees + in-situ check inside the real search",
         "level_text": "After every explored make / null-make / undo (~2e6 quick / ~4e7 thorough boundary states, ~1e7+ in-situ states inside real searches) the incremental hash equalled the recomputed one and the three placement encodings agreed; every position reached by two move orders carried one hash. Held on the executions observed.",
